@@ -6,7 +6,7 @@
 (* ranges - where the arithmetic can go wrong - are enumerated densely.    *)
 EXTENDS Conv
 CONSTANTS Deep,     \* FALSE: quick bounds, TRUE: thorough bounds
-          Which     \* the instance families to check (subset of {1, 2, 3, 4})
+          Which     \* the instance families to check (subset of {1, 2, 3, 4, 5})
 VARIABLES inst
 
 Seqs(S, lens) == UNION { [1..m -> S] : m \in lens }
@@ -46,7 +46,17 @@ I3 == \E L \in Pads :
           \E k \in Impulses(klo, L), a \in Impulses(alo, an) :
              inst = [kind |-> "pad", k |-> k, a |-> a, olo |-> olo, on |-> on]
 
+\* (5) beyond the property text: median / minimum of the in-image neighbourhood, wrapping of over-long data
+I5 == \/ \E lo \in {<<0, 0, 0>>, <<-2, 1, 3>>}, n \in {<<1, 1, 4>>, <<2, 3, 1>>, <<2, 2, 3>>, <<3, 3, 3>>},
+            r \in {<<0, 0, 0>>, <<1, 1, 1>>, <<0, 1, 0>>, <<1, 0, 2>>, <<2, 2, 2>>}, pat \in (IF Deep THEN 1..6 ELSE 1..2) :
+            inst = [kind |-> "med", r |-> r, a |-> Arr(lo, n, [q \in 1..Size(n) |-> IF pat = 6 THEN 4 ELSE ((q * q * pat + pat) % 7) - 3])]
+      \/ \E L \in {<<1, 1, 2>>, <<1, 1, 4>>, <<1, 2, 4>>, <<2, 2, 2>>}, lo \in {-5, -1, 0, 2}, n3 \in 1..(IF Deep THEN 11 ELSE 7), n2 \in 1..3 :
+            inst = [kind |-> "wrap", L |-> L,
+                    a |-> Arr(<<0, IF L[2] = 1 THEN 0 ELSE lo + 1, lo>>, <<1, IF L[2] = 1 THEN 1 ELSE n2, n3>>,
+                              [q \in 1..((IF L[2] = 1 THEN 1 ELSE n2) * n3) |-> q])]
+
 Init == \/ 1 \in Which /\ I1
+        \/ 5 \in Which /\ I5
         \/ 2 \in Which /\ I1s
         \/ 3 \in Which /\ I2
         \/ 4 \in Which /\ I3
@@ -58,5 +68,7 @@ InvBoundary == inst.kind = "one" => ThBoundary(inst.k, inst.a, inst.olo, inst.on
 InvMean     == inst.kind = "one" => \A c \in {1, 2} : ThMean(inst.k, inst.a, c)
 InvSym      == inst.kind = "sym" => ThSymmetric(inst.h, inst.a)
 InvSep      == inst.kind = "sep" => ThSeparable(inst.ks, inst.a)
-InvPad      == inst.kind = "pad" => ThNoWrap(inst.k, inst.a, inst.olo, inst.on)
+InvPad      == inst.kind = "pad" => (ThNoWrap(inst.k, inst.a, inst.olo, inst.on) /\ ThWrapped(inst.k, inst.a, inst.olo, inst.on))
+InvMedian   == inst.kind = "med" => ThMedian(inst.a, inst.r)
+InvWrap     == inst.kind = "wrap" => ThWrapTwice(inst.a, inst.L)
 =============================================================================
